@@ -70,7 +70,10 @@ def run_cases(ctx, n_models, n_states, gen_opts=None, seed_offset=0):
   hist = {}
   for mi in range(n_models):
     opts = dict(gen_opts or {})
-    if mi % 2 == 1 and 'stack' not in opts:
+    if mi in (0, 1) and not gen_opts:
+      # history dependence within one process: the same joint layout as a chain, then as a star
+      opts.update(n_links=(4, 4), stack=(1, 1), roots='world', topology=('chain', 'star')[mi])
+    elif mi % 2 == 1 and 'stack' not in opts:
       # velocity clause of the property: single joints anchored at the link origin
       opts.update(stack=(1, 1), anchor_offset=False)
     xml, meta = modelgen.gen_model(rng, **opts)
